@@ -3,22 +3,18 @@
    /repo/core/blockchain.go (writeHeadBlock, reorg, SetCanonical, insertChain,
    insertSideChain, recoverAncestors, SetHead, restart); each is closed by [exact]
    of a lemma of Chain/CanonicalProofs.v, CanonicalInv.v or CanonicalWitness.v. *)
-From GV Require Import Lib.Tactics Chain.Tree Chain.Canonical Chain.CanonicalProofs Chain.CanonicalInv Chain.CanonicalWitness.
+From GV Require Import Lib.Tactics Chain.Tree Chain.Canonical Chain.CanonicalProofs Chain.CanonicalInv Chain.CanonicalTop Chain.CanonicalWitness.
 Local Open Scope N_scope.
 
-(* FULL STATEMENT (all histories of InsertChain / InsertBlockWithoutSetHead /
-   SetCanonical / SetHead / restart over any well-formed block tree): the index is
-   parent-linked up to the head, names the head at its height, has no entry above
-   it, and the head block lies on it.
-   PROVED below (…_partial): the linkage, canon(head.number) = head and "head block on
-   the chain" clauses, for all histories of the three import operations over any
-   well-formed tree and any fuel.  MISSING: (1) histories containing SetHead / restart
-   (model transcribed and run against the implementation, not proved); (2) the clause
-   "no canonical entry above the head", which is FALSE once SetHead has landed on a
-   block without state (C38_no_entry_above_head_refuted) and is not proved for the rest. *)
-Theorem C38_canon_parent_linked_partial :
+(* The index is parent-linked up to the head, names the head at its height, and the head
+   block lies on it — for ALL histories of InsertChain / InsertBlockWithoutSetHead /
+   SetCanonical / SetHead / Stop+NewBlockChain (incl. the known-block, side-chain and
+   ancestor-recovery paths, whatever the availability of state), over any well-formed
+   block tree and any fuel.  "The head" is the head HEADER: writeHeadBlock always moves
+   it with the head block, SetHead may leave the head block below it. *)
+Theorem C38_canon_parent_linked :
   forall (T : tree) (fuel : nat) (ops : list op),
-    wf_tree T -> Forall import_op ops ->
+    wf_tree T ->
     let st := run T fuel genesis_db ops in
     exists hb, T (hd_header st) = Some hb /\
       canon st (b_number hb) = Some (hd_header st) /\
@@ -28,9 +24,29 @@ Theorem C38_canon_parent_linked_partial :
       (exists bb, T (hd_block st) = Some bb /\ b_number bb <= b_number hb /\
                   canon st (b_number bb) = Some (hd_block st)).
 Proof.
-  intros T fuel ops Hwf Hops st. apply (Inv_linked T Hwf). apply run_inv; auto. apply Inv_genesis; auto.
+  intros T fuel ops Hwf st. apply (Inv_linked T Hwf). apply run_inv; auto. apply Inv_genesis; auto.
 Qed.
-Print Assumptions C38_canon_parent_linked_partial.
+Print Assumptions C38_canon_parent_linked.
+
+(* "No canonical entry above the head", in the form that is invariant: for all histories
+   of all five operations along which the head block never falls below the head header
+   (heads_equal_along: after every step hd_block = hd_header — automatic for the three
+   import operations, a condition on SetHead / restart: they must land on a block whose
+   state is available), nothing is canonical above the head and every canonical block is
+   stored.  Without that condition the clause is false: C38_no_entry_above_head_refuted. *)
+Theorem C38_no_entry_above_head :
+  forall (T : tree) (fuel : nat) (ops : list op),
+    wf_tree T -> (forall g, T 0 = Some g -> T (b_parent g) = None) ->
+    heads_equal_along T fuel genesis_db ops ->
+    let st := run T fuel genesis_db ops in
+    (forall n, num_of T (hd_header st) < n -> canon st n = None) /\
+    (forall n h, canon st n = Some h -> is_known st h = true).
+Proof.
+  intros T fuel ops Hwf Hgp HE st.
+  destruct (run_strict2 T Hwf Hgp fuel ops genesis_db HE (Strict2_genesis T Hwf)) as ((_ & _ & HT) & HK).
+  split; [exact HT | exact HK].
+Qed.
+Print Assumptions C38_no_entry_above_head.
 
 Theorem C38_no_entry_above_head_refuted :
   exists (T : tree) (fuel : nat) (ops : list op), wf_tree T /\
@@ -79,9 +95,11 @@ Print Assumptions C38_reorg_terminates.
 (* tx lookups as the code maintains them: resolution (rawdb.ReadCanonicalTransaction)
    re-checks the index and the body, so whatever resolves is a stored block holding the
    tx and named by the index at the looked-up height.  (That this block is an ancestor
-   of the head follows from C38_canon_parent_linked_partial whenever n <= head.number;
+   of the head follows from C38_canon_parent_linked whenever n <= head.number;
    C38_no_entry_above_head_refuted shows a resolution above the head.) *)
-Theorem C38_lookups_canonical_only :
+(* PARTIAL: the converse over histories (every tx of a canonical block resolves) is not
+   proved; it is checked on every operation by the Go oracle. *)
+Theorem C38_lookups_canonical_only_partial :
   forall (T : tree) st tx h n, resolve_tx T st tx = Some (h, n) ->
     lookup st tx = Some n /\ canon st n = Some h /\
     exists b, T h = Some b /\ is_known st h = true /\ mem tx (b_txs b) = true.
@@ -91,7 +109,7 @@ Proof.
   destruct (T h') as [b|] eqn:ET; [|discriminate]. destruct (is_known st h') eqn:EK; [|discriminate].
   cbn in H. destruct (mem tx (b_txs b)) eqn:EM; [|discriminate]. inversion H; subst. eauto 8.
 Qed.
-Print Assumptions C38_lookups_canonical_only.
+Print Assumptions C38_lookups_canonical_only_partial.
 
 (* the events of whole operations are NOT the exact switch on two paths of the code *)
 Theorem C38_set_canonical_reemits_logs_refuted :
@@ -108,5 +126,7 @@ Theorem C38_known_reimport_silent_refuted :
 Proof. exact known_reimport_silent_refuted. Qed.
 Print Assumptions C38_known_reimport_silent_refuted.
 
-Example C38_nonvacuous : wf_tree WT /\ nonvacuous_check = true.
+Example C38_nonvacuous : wf_tree WT /\ nonvacuous_check = true /\
+  (forall g, WT 0 = Some g -> WT (b_parent g) = None) /\
+  heads_equal_along WT wfuel genesis_db guarded_ops /\ hd_header (wrun guarded_ops) = 3.
 Proof. exact nonvacuous. Qed.
